@@ -55,3 +55,31 @@ func PoolOf(certPEM []byte) *x509.CertPool {
 	p.AppendCertsFromPEM(certPEM)
 	return p
 }
+
+// GenCertNamed is GenCert with a chosen subject.
+func GenCertNamed(cn, org string) (certPEM, keyPEM []byte, der []byte) {
+	key, err := ecdsa.GenerateKey(elliptic.P256(), rand.Reader)
+	if err != nil {
+		panic(err)
+	}
+	sn, _ := rand.Int(rand.Reader, new(big.Int).Lsh(big.NewInt(1), 120))
+	tmpl := &x509.Certificate{
+		Subject:               pkix.Name{CommonName: cn, Organization: []string{org}},
+		DNSNames:              []string{cn},
+		ExtKeyUsage:           []x509.ExtKeyUsage{x509.ExtKeyUsageClientAuth, x509.ExtKeyUsageServerAuth},
+		KeyUsage:              x509.KeyUsageDigitalSignature | x509.KeyUsageKeyEncipherment | x509.KeyUsageKeyAgreement | x509.KeyUsageCertSign,
+		BasicConstraintsValid: true,
+		SerialNumber:          sn,
+		NotBefore:             time.Now().Add(-time.Minute),
+		NotAfter:              time.Now().Add(24 * time.Hour),
+		IsCA:                  true,
+	}
+	der, err = x509.CreateCertificate(rand.Reader, tmpl, tmpl, key.Public(), key)
+	if err != nil {
+		panic(err)
+	}
+	kb, _ := x509.MarshalECPrivateKey(key)
+	certPEM = pem.EncodeToMemory(&pem.Block{Type: "CERTIFICATE", Bytes: der})
+	keyPEM = pem.EncodeToMemory(&pem.Block{Type: "EC PRIVATE KEY", Bytes: kb})
+	return
+}
